@@ -195,7 +195,12 @@ def run(ctx):
                     ctx.ob("LOWER", f"{fn.split('::')[-1]}|checksum-input", ok, f"{fn}: hashed bytes = {show(args[1])[:160]}; must derive from a lower-casing call", fb.file, fb.line, sample=True)
     ctx.floor("LOWER", "Jamcrc::checksum call sites in the hash functions", n_sinks, 4)
 
-    # ---- SHA1
+    sha1_rules(ctx)
+
+
+def sha1_rules(ctx):
+    """SHA-1 structural rules (shared with C10, whose digests are produced by the same code)."""
+    prog = ctx.prog
     H, Ks = refs.sha1_constants()
     ds = prog.const_bytes("sha1::DEFAULT_STATE")
     if ds is None or len(ds) != 20:
